@@ -87,12 +87,44 @@ func (d *dagStoreImpl) UpdateSpec(name string, spec []byte) error {
 	if !exists(loc) {
 		return fmt.Errorf("%w: %s", errDOGFileNotExist, loc)
 	}
-	err = os.WriteFile(loc, spec, defaultPerm)
+	err = writeFileAtomic(loc, spec)
 	if err != nil {
 		return err
 	}
 	d.metaCache.Invalidate(loc)
 	return nil
+}
+
+// writeFileAtomic replaces the content of an existing file all-or-nothing:
+// the new content is written to a temporary file in the same directory,
+// which then replaces the file with a rename. A failed or interrupted save
+// leaves the old content intact (os.WriteFile truncates the file first).
+func writeFileAtomic(file string, data []byte) error {
+	tmp, err := os.CreateTemp(filepath.Dir(file), ".blackdagger-save-*.tmp")
+	if err != nil {
+		return err
+	}
+	tmpName := tmp.Name()
+	_, err = tmp.Write(data)
+	if err == nil {
+		err = tmp.Sync()
+	}
+	if closeErr := tmp.Close(); err == nil {
+		err = closeErr
+	}
+	if err == nil {
+		// keep the permissions of the file that is replaced
+		if info, statErr := os.Stat(file); statErr == nil {
+			err = os.Chmod(tmpName, info.Mode().Perm())
+		}
+	}
+	if err == nil {
+		err = os.Rename(tmpName, file)
+	}
+	if err != nil {
+		_ = os.Remove(tmpName)
+	}
+	return err
 }
 
 var errDAGFileAlreadyExists = errors.New("the DAG file already exists")
